@@ -12,7 +12,7 @@ from fractions import Fraction
 
 import numpy as np
 
-from harness import engine
+from harness import engine, memo
 
 PROP = "C16"
 LEVEL = "model_checking"
@@ -99,6 +99,7 @@ def run(rep: engine.Report, tier: str, seed: int):
     budget = 1500 if tier == "quick" else len(cases)
     sel = engine.stratified_sample(cases, lambda c: (tuple(n % 2 for n in c["cfg"]["s"]), json.dumps(c["cfg"]["c"]), c["cfg"]["order"], min(c["cfg"]["s"]) == 1), budget, seed)
     rep.exhaustive = len(sel) == len(cases)
+    memo.run_family(rep, ["lowpass_utils", "highpass_utils", "lowpass_backend", "lowpass_backend_ft"], hazards=True)
     results = engine.parallel_replay("harness.props.c16", "replay", sel)
     engine.collect(rep, sel, results, key=lambda c: c["cfg"])
     rep.traces_validated = rep.evaluations
